@@ -948,7 +948,7 @@ class SP(Robot):
         return np.copy(self.lengths), bottom_plate_pos, top_plate_pos
 
     def _FKSolve(self, L : 'np.ndarray[float]', plate_pos : tm = None, 
-            protect : bool = False):
+            protect : bool = False, allow_fallback : bool = True):
         """
         Solve FK using an older version of python solver, no jacobian used.
         
@@ -987,7 +987,12 @@ class SP(Robot):
         nLens = self.getLens()
         for j in range(6):
             if abs(abs(L[j]) - abs(nLens[j])) > 0.00001 or not self.validate(True):
-                return self._FKRaphson(L, plate_pos, protect)
+                if allow_fallback:
+                    return self._FKRaphson(L, plate_pos, protect)
+                #Both solvers failed: reset to the neutral pose instead of recursing forever
+                self.IK(top_plate_pos = plate_pos @ self._nominal_plate_transform,
+                        bottom_plate_pos = plate_pos, protect = True)
+                return self.getBottomT(), self.getTopT()
         #If not "Protected" from recursion, call IK.
         if not protect:
             self.IK(protect = True)
@@ -1074,7 +1079,7 @@ class SP(Robot):
             if self.debug:# pragma: no cover
                 disp("Raphson FK Failed due to: " + str(e))
             self.fail_count+=1
-            return self._FKSolve(L, bottom_plate_pos_backup, protect)
+            return self._FKSolve(L, bottom_plate_pos_backup, protect, allow_fallback = False)
 
     """
     Validation and Corrective Action Helpers
